@@ -76,6 +76,7 @@ func vbftConfigFor(vals []keyRec) *config.VBFTConfig {
 const worldHeight = 20000000 // above every router start block of the main net configuration
 
 type nworld struct {
+	overlay *overlaydb.OverlayDB
 	store  *leveldbstore.LevelDBStore
 	height uint32
 	time   uint32
@@ -160,7 +161,12 @@ func relayHandler(s *native.NativeService) ([]byte, error) {
 
 // service builds a NativeService over a fresh overlay on the committed store.
 func (w *nworld) service(signers []common.Address, code []byte) (*native.NativeService, *overlaydb.OverlayDB, *storage.CacheDB) {
-	overlay := overlaydb.NewOverlayDB(w.store)
+	// one overlay object per world, emptied before every use (allocating it is by far the most expensive step)
+	if w.overlay == nil {
+		w.overlay = overlaydb.NewOverlayDB(w.store)
+	}
+	overlay := w.overlay
+	overlay.Reset()
 	cache := storage.NewCacheDB(overlay)
 	w.nonce++
 	tx := rawInvokeTx(code, w.nonce, signers)
